@@ -544,6 +544,10 @@ func (engine) Body(r *simdrv.Run) {
 			switch k {
 			case sdkmetric.InstrumentKindCounter, sdkmetric.InstrumentKindHistogram, sdkmetric.InstrumentKindUpDownCounter:
 				return sdkmetric.AggregationLastValue{}
+			case sdkmetric.InstrumentKindObservableCounter, sdkmetric.InstrumentKindObservableUpDownCounter, sdkmetric.InstrumentKindObservableGauge:
+				// ... and drops the observable kinds, which is legal and concerns this reader alone: the other
+				// readers still get every observation (after seeded change C08-h)
+				return sdkmetric.AggregationDrop{}
 			}
 			return sdkmetric.DefaultAggregationSelector(k)
 		}))
